@@ -22,7 +22,15 @@ inline void WriteHeader(std::ostream& stream, std::string& schema) {
 
 inline ordered_json ReadHeader(std::istream& stream) {
   std::string line;
-  std::getline(stream, line);
+  try {
+    std::getline(stream, line);
+  } catch (std::ios_base::failure const&) {
+    // The owner of the stream enabled exceptions on it. A stream without a header line
+    // is reported below, like on any other stream.
+    if (stream.bad()) {
+      throw;
+    }
+  }
   try {
     ordered_json actual_header_json = ordered_json::parse(line);
     actual_header_json = actual_header_json.at("yardl");
